@@ -10,11 +10,11 @@ KEYS = ("a", "b", "zz")
 
 
 class Model:
-    def __init__(self, derive=("Select", "Where", "MD1"), qmds=QMDS, execs=("Value",)):
-        self.derive, self.qmds, self.execs = list(derive), list(qmds), list(execs)
+    def __init__(self, derive=("Select", "Where", "MD1"), qmds=QMDS, execs=("Value",), roots=(1, 1)):
+        self.derive, self.qmds, self.execs, self.roots = list(derive), list(qmds), list(execs), roots
 
     def fresh(self):
-        w = streams.World(1, 0)
+        w = streams.World(*self.roots)  # untyped and typed datasets (callbacks, defaulted parameters)
         w.track_twin = True
         return w
 
@@ -95,7 +95,7 @@ class C16(Check):
 
     def spaces(self, tier):
         Q = tier == "quick"
-        plan = [("full", 4, 2)] if Q else [("full", 5, 2), ("qmdonly", 7, 2)]
+        plan = [("full", 3, 1), ("qmdonly", 5, 2)] if Q else [("full", 4, 2), ("qmdonly", 7, 2)]
         out = []
         for mname, depth, plen in plan:
             m = self._model(mname)
@@ -107,7 +107,7 @@ class C16(Check):
     def _model(self, name):
         if name == "full":
             return Model()
-        return Model(derive=("Select",), qmds=QMDS[:3], execs=())
+        return Model(derive=("Select",), qmds=QMDS[:3], execs=(), roots=(1, 0))
 
     def run_prefix(self, payload):
         mname, depth, prefix = payload
